@@ -520,7 +520,8 @@ func (t *TransportLayerCC) Unmarshal(rawPacket []byte) error { //nolint:gocognit
 					}
 				}
 			}
-			processedPacketNum += uint16(len(packetStatus.SymbolList))
+			// a vector chunk may carry more symbols than remain; don't let the uint16 counter wrap
+			processedPacketNum += localMin(t.PacketStatusCount-processedPacketNum, uint16(len(packetStatus.SymbolList)))
 		}
 		packetStatusPos += packetStatusChunkLength
 		t.PacketChunks = append(t.PacketChunks, iPacketStatus)
